@@ -56,6 +56,7 @@ def cases(tier, seed):
     cs += [{'mac': 0}, {'derive': 0}, {'derive': 1}, {'wrap': 0}, {'fresh': 0}]
     cs += [{'sign': i} for i in range(2 if tier == 'quick' else 8)]
     cs += [{'server': i} for i in range(8 if tier == 'quick' else 96)]
+    cs += [{'server_derive': i} for i in range(4 if tier == 'quick' else 24)]
     return cs
 
 
@@ -212,6 +213,8 @@ def run_case(ctx, case):
         run_fresh(ctx, rng, ce)
     elif 'sign' in case:
         run_sign(ctx, rng, ce)
+    elif 'server_derive' in case:
+        run_server_derive(ctx, rng)
     else:
         run_server(ctx, rng)
 
@@ -603,3 +606,69 @@ def run_server(ctx, rng):
         finally:
             srv.close()
     ctx.sample({'function': 'server round trips'})
+
+
+def run_server_derive(ctx, rng):
+    """DeriveKey through the server over base objects of several kinds / algorithms: the derivation must use
+    the parameters stated in the request, whatever the base object is."""
+    DM = E.DerivationMethod
+    rig.install_clock(rig.VClock(step=1))
+    a = ('alice', None)
+    with rig.scratch_dir() as d:
+        srv = rig.Server(d + '/db.sqlite')
+        try:
+            bases = []
+            for alg in (CA.AES, CA.HMAC_SHA1, CA.HMAC_SHA256, CA.HMAC_SHA512, CA.HMAC_MD5, CA.BLOWFISH):
+                key = rb(rng, 32)
+                r = srv.send([op_register('sym', secret_sym(key, alg, 256), sym_attrs(alg, 256, [E.CryptographicUsageMask.DERIVE_KEY],
+                                                                                     names=['base-%s' % alg.name]))], a)
+                if r.error is None and r.ok():
+                    bases.append((alg, key, r.uid()))
+            sd = rb(rng, 24)
+            r = srv.send([op_register('secret', secret_data(sd), [rig.attr(E.AttributeType.CRYPTOGRAPHIC_USAGE_MASK,
+                                                                          [E.CryptographicUsageMask.DERIVE_KEY])])], a)
+            if r.error is None and r.ok():
+                bases.append((None, sd, r.uid()))
+            for (balg, key, uid), (ha, h), method in itertools.product(bases, list(HASHES.items())[1:], (DM.HMAC, DM.PBKDF2, DM.NIST800_108_C, DM.HASH)):
+                length = rng.choice((128, 256, 64))
+                data = rb(rng, 10)
+                salt = rb(rng, 8)
+                its = rng.choice((1, 3))
+                dp = attrs.DerivationParameters(cryptographic_parameters=cparams(hashing_algorithm=ha),
+                                                derivation_data=None if method == DM.PBKDF2 else data,
+                                                salt=salt if method in (DM.PBKDF2, DM.HMAC) else None,
+                                                iteration_count=its if method == DM.PBKDF2 else None)
+                if method == DM.HASH:
+                    dp = attrs.DerivationParameters(cryptographic_parameters=cparams(hashing_algorithm=ha))
+                r = srv.send([op_derive_key([uid], method=method, params=dp, attributes_list=sym_attrs(CA.AES, length, ALL_MASKS))], a, (1, 2))
+                ctx.ev()
+                label = 'server-derive|%s|%s|base:%s' % (method.name, ha.name, balg.name if balg else 'SecretData')
+                if r.error is not None or not r.ok():
+                    ctx.cell(label, 'refused')
+                    ctx.count('refused')
+                    continue
+                g = srv.send([op_get(r.uid())], a, (1, 2))
+                val = None
+                for _, it in T.walk(g.payload() or (0, 1, [])):
+                    if it[0] == 0x420043:
+                        val = it[2]
+                n = length // 8
+                if method == DM.HMAC:
+                    want = hkdf_ref(h, key, salt, data, n)
+                elif method == DM.PBKDF2:
+                    want = hashlib.pbkdf2_hmac(h, key, salt, its, n)
+                elif method == DM.NIST800_108_C:
+                    want = kbkdf_ref(h, key, data, n)
+                else:
+                    want = hashlib.new(h, key).digest()[:n]
+                    if len(want) < n:
+                        continue
+                ctx.count('references_compared')
+                ctx.cell(label, 'ok')
+                if val != want:
+                    ctx.violation('server|derive|%s|%s|base:%s' % (method.name, ha.name, 'HMAC-key' if (balg and balg.name.startswith('HMAC')) else 'other'),
+                                  'DeriveKey (%s, %s) over a %s base object stores a key that differs from the reference for the stated '
+                                  'parameters' % (method.name, ha.name, balg.name if balg else 'SecretData'), None)
+        finally:
+            srv.close()
+    ctx.sample({'function': 'server DeriveKey matrix', 'bases': ['AES', 'HMAC_SHA1', 'HMAC_SHA256', 'HMAC_SHA512', 'HMAC_MD5', 'BLOWFISH', 'SecretData']})
